@@ -283,15 +283,17 @@ func genRule(t *rapid.T, o GenOpts, schema []PredInfo, h PredInfo, exitRule bool
 	}
 	for i := 0; i < nDef; i++ {
 		switch kind := rapid.IntRange(0, 9).Draw(t, "defKind"); {
-		case kind >= 8 && o.Eq:
-			// alias: a fresh variable equated with a bound one (variable = variable)
+		case kind >= 9 && o.Eq:
+			// alias: a fresh variable equated with a bound one (variable = variable). Kept rare: analysis does not
+			// take an alias for bound where a built-in or a function needs a value, so most later uses of the alias
+			// get the program rejected (which is allowed, but a rejected program tests nothing behind analysis).
 			typ := rapid.SampledFrom([]byte("nnna")).Draw(t, "aliasType")
 			if len(g.bound[typ]) == 0 {
 				continue
 			}
 			x := rapid.SampledFrom(g.bound[typ]).Draw(t, "aliasOf")
 			z := g.fresh(typ)
-			if rapid.Bool().Draw(t, "aliasFlip") {
+			if rapid.IntRange(0, 11).Draw(t, "aliasFlip") == 0 { // bound = fresh: analysis does not take it for a binding
 				body = append(body, EqLit(Var(x), Var(z)))
 			} else {
 				body = append(body, EqLit(Var(z), Var(x)))
@@ -337,7 +339,7 @@ func genRule(t *rapid.T, o GenOpts, schema []PredInfo, h PredInfo, exitRule bool
 			p := rapid.SampledFrom(g.bound['p']).Draw(t, "mp")
 			a, b := g.fresh('n'), g.fresh('n')
 			var ta, tb Term = Var(a), Var(b)
-			if rapid.IntRange(0, 4).Draw(t, "mpConst") == 0 {
+			if rapid.IntRange(0, 24).Draw(t, "mpConst") == 0 { // rare: analysis wants free variables there
 				ta = Num(rapid.SampledFrom(numDomain).Draw(t, "mpc"))
 			} else {
 				g.bind('n', a)
@@ -430,7 +432,7 @@ func genRule(t *rapid.T, o GenOpts, schema []PredInfo, h PredInfo, exitRule bool
 			p := rapid.SampledFrom(lower).Draw(t, "negPred")
 			a := Atom{Pred: p.Name, Args: []Term{}}
 			for c := 0; c < len(p.Cols); c++ {
-				if rapid.IntRange(0, 19).Draw(t, "negWild") == 19 {
+				if rapid.IntRange(0, 99).Draw(t, "negWild") == 99 { // rare: analysis rejects a wildcard in a negated atom
 					a.Args = append(a.Args, Var("_"))
 					labels["neg-wildcard"] = true
 				} else {
@@ -508,4 +510,92 @@ func genRule(t *rapid.T, o GenOpts, schema []PredInfo, h PredInfo, exitRule bool
 	}
 	r.Body = append(body, tail...)
 	return r
+}
+
+// GenFactless draws a program without any fact and without extensional predicates: the first rules fire
+// from equalities, ground comparisons and structural built-ins over constants alone (i0(X) :- X = 2.),
+// counters and ordinary rules (drawn by the main generator over these predicates) build on them. Evaluated on an
+// EMPTY store such a program still has a non-empty least model.
+func GenFactless(o GenOpts) *rapid.Generator[Generated] {
+	return rapid.Custom(func(t *rapid.T) Generated {
+		var g Generated
+		labels := map[string]bool{"factless": true}
+		nSrc := rapid.IntRange(1, 3).Draw(t, "nSources")
+		for i := 0; i < nSrc; i++ {
+			name := fmt.Sprintf("i%d", i)
+			cols := "n"
+			nr := rapid.IntRange(1, 2).Draw(t, "nSourceRules")
+			kind := rapid.IntRange(0, 4).Draw(t, "sourceKind")
+			if kind == 3 {
+				cols = ""
+			}
+			if kind == 1 {
+				cols = "nn"
+			}
+			for k := 0; k < nr; k++ {
+				c1 := Num(rapid.SampledFrom(numDomain).Draw(t, "c1"))
+				c2 := Num(rapid.SampledFrom(numDomain).Draw(t, "c2"))
+				var r Rule
+				switch kind {
+				case 0: // i(X) :- X = c.
+					r = Rule{Head: Atom{Pred: name, Args: []Term{Var("X")}}, Body: []Lit{EqLit(Var("X"), c1)}}
+					if rapid.Bool().Draw(t, "flip") {
+						r.Body = []Lit{EqLit(c1, Var("X"))}
+					}
+				case 1: // i(X, Y) :- X = c1, Y = fn:plus(X, c2).
+					r = Rule{Head: Atom{Pred: name, Args: []Term{Var("X"), Var("Y")}},
+						Body: []Lit{EqLit(Var("X"), c1), EqLit(Var("Y"), Fn("fn:plus", Var("X"), c2))}}
+				case 2: // i(H) :- :match_cons([c1, c2], H, T).   /   i(X) :- :list:member(X, [c1, c2]).
+					lst := Fn("fn:list", c1, c2)
+					lst.Lst = true
+					if rapid.Bool().Draw(t, "member") {
+						r = Rule{Head: Atom{Pred: name, Args: []Term{Var("X")}}, Body: []Lit{PosLit(Atom{Pred: ":list:member", Args: []Term{Var("X"), lst}})}}
+					} else {
+						r = Rule{Head: Atom{Pred: name, Args: []Term{Var("H")}}, Body: []Lit{PosLit(Atom{Pred: ":match_cons", Args: []Term{lst, Var("H"), Var("T")}})}}
+					}
+					labels["builtin-pred"] = true
+				case 3: // i() :- c1 < c2.  (may well be false: then the predicate is empty)
+					r = Rule{Head: Atom{Pred: name, Args: []Term{}}, Body: []Lit{CmpLit(rapid.SampledFrom([]string{"<", "<=", ">", ">="}).Draw(t, "op"), c1, c2)}}
+				default: // i(Y) :- Y = fn:mult(c1, c2).
+					r = Rule{Head: Atom{Pred: name, Args: []Term{Var("Y")}}, Body: []Lit{EqLit(Var("Y"), Fn("fn:mult", c1, c2))}}
+					labels["fn"] = true
+				}
+				g.Prog.Rules = append(g.Prog.Rules, r)
+			}
+			if cols == "n" && rapid.Bool().Draw(t, "counter") {
+				// a counter on top: i(Y) :- i(X), X < 5, Y = fn:plus(X, 1).
+				g.Prog.Rules = append(g.Prog.Rules, Rule{Head: Atom{Pred: name, Args: []Term{Var("Y")}},
+					Body: []Lit{PosLit(Atom{Pred: name, Args: []Term{Var("X")}}), CmpLit("<", Var("X"), Num(5)), EqLit(Var("Y"), Fn("fn:plus", Var("X"), Num(1)))}})
+				labels["recursive-rule"] = true
+				labels["fn"] = true
+			}
+			g.Schema = append(g.Schema, PredInfo{Name: name, Cols: cols, Level: 0})
+		}
+		// ordinary rules over these predicates (levels 1 and 2), drawn by the main rule generator
+		nIdb := rapid.IntRange(0, 3).Draw(t, "nConsumers")
+		for i := 0; i < nIdb; i++ {
+			ar := rapid.SampledFrom([]int{1, 1, 2, 0}).Draw(t, "consArity")
+			cols := ""
+			for c := 0; c < ar; c++ {
+				cols += "n"
+			}
+			h := PredInfo{Name: fmt.Sprintf("i%d", nSrc+i), Cols: cols, Level: 1 + rapid.IntRange(0, 1).Draw(t, "consLevel")}
+			g.Schema = append(g.Schema, h)
+		}
+		oo := o
+		oo.Struct = false
+		for _, h := range g.Schema {
+			if h.Level < 1 {
+				continue
+			}
+			nr := rapid.IntRange(1, 2).Draw(t, "nConsRules")
+			for k := 0; k < nr; k++ {
+				g.Prog.Rules = append(g.Prog.Rules, genRule(t, oo, g.Schema, h, k == 0, labels))
+			}
+		}
+		for l := range labels {
+			g.Labels = append(g.Labels, l)
+		}
+		return g
+	})
 }
